@@ -481,6 +481,9 @@ func (in *Interp) nondetNames() []string {
 func (in *Interp) modelValues(extra string) (string, map[string]any) {
 	names := in.nondetNames()
 	res, vals := in.solver.CheckModel(extra, names)
+	if res == "unknown" {
+		res, vals = in.solver.FallbackModel(extra, names)
+	}
 	if res != "sat" {
 		return res, nil
 	}
@@ -573,6 +576,9 @@ func (in *Interp) obligation(id string, c value) {
 	case *sym:
 		neg := "(not " + c.t + ")"
 		r := in.solver.Check(neg)
+		if r == "unknown" {
+			r = in.solver.FallbackCheck(neg)
+		}
 		switch r {
 		case "unsat":
 			in.assertPC(c.t)
